@@ -20,7 +20,7 @@ from vlib import common, rules, schemagen
 from vlib.schemagen import PRIMS, prim_range
 
 KEYWORD_NAMES = sorted(rules.KEYWORDS)
-BAD_NAMES = ["9x", "a-b", "a b", "x.y", "é", "a+"]
+BAD_NAMES = ["9x", "a-b", "a b", "x.y", "é", "a+", "-a", ".Qty", "+x", "$v", "a$", "x-"]   # bad first / middle / last character
 
 
 def walk_types(sch):
